@@ -594,6 +594,7 @@ def replay(req):
     except Exception as e:  # the real code raised
         f.exc = type(e).__name__
         out["raised"] = "%s: %s" % (type(e).__name__, e)
+        out["raise_declared"] = any(t == f.exc for (t, w) in con.raises_) or con.native_incomplete
         out["traceback"] = traceback.format_exc().splitlines()[-6:]
     out["state_after"] = describe(locs)
     out["ghost_after"] = describe(ghost)
@@ -619,6 +620,14 @@ def replay(req):
         suffix = name[len(base):]
         cands = [c for c in con.ensures_ if c.name == base]
         probe_all = False
+        if base == "*" and f.exc is not None and not out.get("raise_declared") and not con.native_incomplete:
+            # the function is outside the executor's subset and the REAL code raised an exception its contract does not
+            # declare, from a pre-state satisfying the precondition: the implicit "never raises" obligation fails
+            reproduced = True
+            detail = "implicit obligation: real code raised %s" % out.get("raised")
+            out["failed_clause"] = "no-raise:%s" % f.exc
+            cands = []
+            base = "<raised>"
         if not cands and base == "*":
             cands = list(con.ensures_)          # function outside the executor's subset: probe every post clause
             suffix = ""
